@@ -9,6 +9,8 @@ def run(ctx, rep):
     run_contracts(ctx, rep)
     from ..rules_contract import transient_callers
     transient_callers(rep, ctx.prog("Q"))
+    from ..rules_r5 import byte_guard
+    byte_guard(rep, ctx.prog("Q"))
     if ctx.tier == "thorough":
         from ..rules_ranged import ranged_checked
         ranged_checked(ctx, rep)
